@@ -188,13 +188,27 @@ fn interval_body_us(period_us: u64, burn: bool, exit_after_ticks: u64, kill: boo
 }
 
 fn exit_kill_after_body(period_ms: u64, kill: bool, busy: bool) -> vsched::Body {
+    exit_kill_after_body_x(period_ms, kill, busy, false)
+}
+
+/// `instant`: the target comes from spawn_linked_instant and the timer is armed before its start-up task ran
+fn exit_kill_after_body_x(period_ms: u64, kill: bool, busy: bool, instant: bool) -> vsched::Body {
     Arc::new(move || {
         Box::pin(async move {
             let log = Log::default();
             let (s, sh) = Actor::spawn(None, Probe, args("S", Prog::default(), &log)).await.expect("S");
-            let (a, ah) = Actor::spawn_linked(None, Probe, args("A", Prog::default(), &log), s.get_cell()).await.expect("A");
             let t0 = vsched::now();
-            let h = if kill { a.kill_after(Duration::from_millis(period_ms)) } else { a.exit_after(Duration::from_millis(period_ms)) };
+            let (a, ah, h) = if instant {
+                let (a, outer) = ractor::ActorRuntime::<Probe>::spawn_linked_instant(None, Probe, args("A", Prog::default(), &log), s.get_cell()).expect("instant A");
+                // armed at once: the target is still Unstarted
+                let h = if kill { a.kill_after(Duration::from_millis(period_ms)) } else { a.exit_after(Duration::from_millis(period_ms)) };
+                let ah = outer.await.expect("outer").expect("A starts");
+                (a, ah, h)
+            } else {
+                let (a, ah) = Actor::spawn_linked(None, Probe, args("A", Prog::default(), &log), s.get_cell()).await.expect("A");
+                let h = if kill { a.kill_after(Duration::from_millis(period_ms)) } else { a.exit_after(Duration::from_millis(period_ms)) };
+                (a, ah, h)
+            };
             if busy {
                 let _ = a.cast(do_msg(1, vec![Step::SleepMs(period_ms + 2), Step::Tick]));
             }
@@ -330,13 +344,16 @@ pub fn plan(tier: &str) -> Plan {
     for (p, ticks) in [(1u64, 0u64), (1, 2), (5, 1), (5, 3)] {
         units.push(Unit::explore(Job::new(format!("interval/{p}ms/abort-after-{ticks}ticks"), cfg.clone(), Some(bound), interval_abort_body(p, ticks))));
     }
+    for (p, kill) in [(0u64, false), (5, false), (5, true)] {
+        units.push(Unit::explore(Job::new(format!("{}/{p}ms/instant-target", if kill { "kill_after" } else { "exit_after" }), cfg.clone(), Some(bound), exit_kill_after_body_x(p, kill, false, true))));
+    }
     for (p, kill) in [(0u64, false), (0, true), (1, false), (5, false), (5, true)] {
         units.push(Unit::explore(Job::new(format!("{}/{p}ms/aborted", if kill { "kill_after" } else { "exit_after" }), cfg.clone(), Some(bound), exit_kill_abort_body(p, kill))));
     }
     Plan {
         property: "C12",
         units,
-        rule: "period in {0, 1 us, 900 us, 1.5 ms, 1 ms, 5 ms} x target exit before / exactly at / after the expiry (stop or kill) x handle abort right after the handle was obtained (before the timer task ran) / before / at / after the expiry x intervals of 200 us .. 5 ms with message construction that burns half a period x aborted interval handles x exit_after / kill_after on idle and busy actors and with their handle aborted half-way, on the virtual clock; a deviation-bounded DFS explores same-instant ties (timer vs. unrelated ready task vs. exit); oracle on exact virtual timestamps; non-trivial = execution with >= 1 branching decision".into(),
+        rule: "period in {0, 1 us, 900 us, 1.5 ms, 1 ms, 5 ms} x target exit before / exactly at / after the expiry (stop or kill) x handle abort right after the handle was obtained (before the timer task ran) / before / at / after the expiry x intervals of 200 us .. 5 ms with message construction that burns half a period x aborted interval handles x exit_after / kill_after on idle and busy actors, on an instant spawn that has not started yet, and with their handle aborted half-way, on the virtual clock; a deviation-bounded DFS explores same-instant ties (timer vs. unrelated ready task vs. exit); oracle on exact virtual timestamps; non-trivial = execution with >= 1 branching decision".into(),
         assumptions: vec![
             "the seam's Interval (next_tick += period, the algorithm of the repository's async-std backend) stands in for tokio's Interval: the no-drift clause is decided for the loop in time.rs on top of it, not for tokio's timer wheel".into(),
             "computation takes zero virtual time unless the harness burns it".into(),
